@@ -191,7 +191,9 @@ fn check_triple(a: &Value, b: &Value, c: &Value, out: &mut Vec<Violation>, obs: 
 // ---------------------------------------------------------------------------------------------
 // consumer level
 
-const REAL_TEXTS: &[&str] = &["0.0", "-0.0", "1.0", "1", "1.5", "-1.5", "2.5", "1e2", "100", "inf", "-inf", "NaN", "-NaN", "1e308", "5e-324", "0.1", "3"];
+const REAL_TEXTS: &[&str] = &["0.0", "-0.0", "1.0", "1", "1.5", "-1.5", "2.5", "1e2", "100", "inf", "-inf", "NaN", "-NaN", "1e308", "5e-324", "0.1", "3",
+    // integral values beyond the 64-bit and 53-bit integer ranges (distinct keys that conversions through integers would merge)
+    "1e19", "1e20", "9223372036854775808", "18446744073709551616", "-4e30", "-5e30", "9007199254740992", "9007199254740994", "-9223372036854775808", "-1e19", "1.7e308"];
 
 fn real_class_key(x: f64) -> String { if x.is_nan() { "nan".into() } else if x == 0.0 { "0".into() } else { format!("{:?}", x) } }
 
